@@ -863,8 +863,14 @@ def replay(chk, rp):
     bad = 0
     reps = 1 if "schedule_b" in rp or not any("threads" in l for l in scen) else 20
     for i in range(reps):
-        r = run_variant(drv, scen, os.path.join(root, "r%d" % i), "scenario", timeout=120, env=env)
-        print("run %d: rc=%s" % (i, r["rc"]))
+        r = run_variant(drv, scen, os.path.join(root, "r%d" % i), "scenario", timeout=300, env=env, stall_s=15)
+        print("run %d: rc=%s%s" % (i, r["rc"], " (driver silent for 15 s: hang)" if r["hung"] else ""))
+        errs = []
+        for b in real_builds(r["out"]):
+            errs += enginelib.protocol_check(b)[0]
+        if errs:
+            bad += 1
+            print("protocol:", errs[:5])
         if r["rc"] != 0 or "ThreadSanitizer" in r["err"] or any(l.startswith(("LATE-CALLBACK", "leftover")) for l in r["out"]):
             bad += 1
             print(r["err"][-3000:])
@@ -877,6 +883,8 @@ def replay(chk, rp):
                 for x, y in zip(na, nb):
                     if x != y:
                         print("DIFFERENCE:", first_diff(x, y)); break
+        if bad:
+            break
     if bad:
         chk.violation(rp.get("finding_key", "replayed"), "replayed: %s" % rp.get("what"), dict(scenario=scen, variant=variant), found_input=True, broken=rp.get("broken"))
     chk.count(("replay", 0)); chk.count(("replay", 1))
